@@ -14,8 +14,11 @@ func DeepCast(val Value, typ ast.Type, span errors.Span, allowCasts bool) (*Valu
 
 // `path` describes the position of `val` in the value being cast (`.field`, `[index]`), for error messages.
 func castErr(path string, message string, span errors.Span) *Interrupt {
+	// The caller puts "Cast error" in front: "Cast error at `.a`: ..." / "Cast error: ...", like the VM.
 	if path != "" {
-		message = fmt.Sprintf("at `%s`: %s", path, message)
+		message = fmt.Sprintf(" at `%s`: %s", path, message)
+	} else {
+		message = ": " + message
 	}
 	return NewRuntimeErr(message, CastErrorKind, span)
 }
